@@ -246,7 +246,31 @@ def g_import(lists):
     return "(Some ([%s], [%s]))" % ("; ".join("((%d)%%Z, (%d)%%Z)" % x for x in regs), "; ".join("((%d)%%Z, %s)" % (c, "true" if a else "false") for c, a in crs))
 
 
-def e2e_cases(ctx, seed, count, binpath, opts_fn=None, dense_assign=True, threads=1):
+def gen_room_opts(r, d, idx):
+    """room options of an end-to-end run: (args, rooms_arg) with rooms_arg = ('list', sizes) | ('file', kinds in file order), and the
+    name of the possible-rooms field (or None)"""
+    field = "raum" if r.random() < 0.7 else None
+    if r.random() < 0.5:
+        sizes = [r.choice([0, 1, 2, 3, 4, 5, 6, 8, 12]) for _ in range(r.randint(1, 9))]
+        return ["--rooms", ",".join(map(str, sizes))] + (["--possible-rooms-field", field] if field else []), ("list", sizes), field
+    kinds = []
+    for k in range(r.randint(0, 5)):
+        kinds.append({"name": r.choice(["Saal", "Raum", "H\u00f6rsaal", "K", "Zelt \u00df"]) + " %d" % k, "capacity": r.choice([0, 1, 2, 3, 4, 5, 6, 8, 12]),
+                      "quantity": r.choice([0, 1, 1, 2, 3])})
+    fp = os.path.join(d, "rooms_%05d.json" % idx)
+    json.dump(kinds, open(fp, "w", encoding="utf-8"), ensure_ascii=False)
+    return ["--rooms-file", fp] + (["--possible-rooms-field", field] if field else []), ("file", kinds), field
+
+
+def g_rooms_arg(ra):
+    if ra is None:
+        return "(None, None)"
+    if ra[0] == "list":
+        return "(Some [" + "; ".join("%d%%nat" % x for x in ra[1]) + "], None)"
+    return "(None, Some [" + "; ".join("(%s, %d%%nat, %d%%nat)" % (cstr(k["name"]), k["capacity"], k["quantity"]) for k in ra[1]) + "])"
+
+
+def e2e_cases(ctx, seed, count, binpath, opts_fn=None, dense_assign=True, threads=1, rooms=False):
     """runs the real binary --cde on generated exports; returns records with the import file checked in Coq"""
     r, exports = make_exports(ctx, seed, count, dense_assign=dense_assign)
     d = os.path.join(ctx.work, "cde")
@@ -259,20 +283,29 @@ def e2e_cases(ctx, seed, count, binpath, opts_fn=None, dense_assign=True, thread
             if os.path.exists(outp):
                 os.remove(outp)
             args = ["--cde", "--num-threads", str(threads)] + (["--track", str(track)] if track is not None else []) + (["-i"] if ic else []) + (["-j"] if ia else [])
-            if r.random() < 0.35:
-                args += r.choice([["--room-factor-field", "rf", "--room-offset-field", "ro"], ["--room-factor-field", "rf"], ["--room-offset-field", "ro"]])
-            tasks.append((ex, track, ic, ia, args + [ex["file"], outp], outp))
+            ffof = []
+            if r.random() < (0.6 if rooms else 0.35):
+                ffof = r.choice([["--room-factor-field", "rf", "--room-offset-field", "ro"], ["--room-factor-field", "rf"], ["--room-offset-field", "ro"]])
+                args += ffof
+            rinfo = None
+            if rooms:
+                rargs, rarg, rfield = gen_room_opts(r, d, len(tasks))
+                args += rargs
+                rinfo = {"rooms_arg": rarg, "field": rfield, "ff": "rf" if "--room-factor-field" in ffof else None,
+                         "of": "ro" if "--room-offset-field" in ffof else None}
+            tasks.append((ex, track, ic, ia, args + [ex["file"], outp], outp, rinfo))
     from concurrent.futures import ThreadPoolExecutor
 
     def work(t):
-        ex, track, ic, ia, args, outp = t
+        ex, track, ic, ia, args, outp, rinfo = t
         run = clirun.run_bin(binpath, args)
         return run
 
     with ThreadPoolExecutor(max_workers=16) as exr:
         runs = list(exr.map(work, tasks))
     recs, texts = [], []
-    for (ex, track, ic, ia, args, outp), run in zip(tasks, runs):
+    rtexts, ridx = [], []
+    for (ex, track, ic, ia, args, outp, rinfo), run in zip(tasks, runs):
         lists = None
         problem = None
         dfile = None
@@ -293,8 +326,26 @@ def e2e_cases(ctx, seed, count, binpath, opts_fn=None, dense_assign=True, thread
         texts.append("(%s, %s, %s)" % (coq(ex["export"]), g_opts(track, ic, ia), g_import(lists)))
         recs.append({"export_file": ex["file"], "export": ex["export"], "track": track, "ignore_cancelled": ic, "ignore_assigned": ia, "args": args,
                      "exit": run["rc"], "timeout": run["timeout"], "stderr": run["stderr"][-400:], "import": dfile if isinstance(dfile, dict) else None,
-                     "lists": lists, "problem": problem, "panicked": "panicked" in run["stderr"]})
+                     "lists": lists, "problem": problem, "panicked": "panicked" in run["stderr"], "rooms": rinfo})
+        if rinfo is not None and lists is not None and isinstance(dfile, dict):
+            # the possible-rooms field as written: course id -> string (None when some course carries no such field)
+            fvals = None
+            if rinfo["field"]:
+                fvals = []
+                for cid, cv in dfile["courses"].items():
+                    v = (cv.get("fields") or {}).get(rinfo["field"]) if isinstance(cv, dict) else None
+                    if isinstance(v, str):
+                        fvals.append((int(cid), v))
+            g_f = "None" if fvals is None else "(Some [" + "; ".join("((%d)%%Z, %s)" % (cid, cstr(v)) for cid, v in fvals) + "])"
+            rtexts.append("(%s, %s, %s, %s, [%s], %s, %s)" % (coq(ex["export"]), g_opts(track, ic, ia), g_field(rinfo["ff"]), g_field(rinfo["of"]),
+                                                              "; ".join("((%d)%%Z, (%d)%%Z)" % (a, b) for a, b in lists[0]), g_rooms_arg(rinfo["rooms_arg"]), g_f))
+            ridx.append(len(recs) - 1)
     codes = eval_cases(ctx, "import", "import_case", "check_import", texts)
     for rec, c in zip(recs, codes):
         rec["code"] = c
+    if rtexts:
+        rcodes = eval_cases(ctx, "cderooms", "cde_rooms_case", "check_cde_rooms", rtexts,
+                            header="Require Import Json Cde CorrCde CorrCdeRooms.\nOpen Scope string_scope.\nOpen Scope list_scope.")
+        for i, c in zip(ridx, rcodes):
+            recs[i]["rooms_code"] = c
     return recs
